@@ -245,19 +245,60 @@ Theorem C06_rich_template_flags :
 Proof. exact template_flags_spec. Qed.
 Print Assumptions C06_rich_template_flags.
 
-(* what follows the bail-out in the richer install / upgrade is the text of the shared model *)
+(* what follows the bail-out in the richer install / upgrade is the text of the shared model:
+   a real install / upgrade of Engine/Ops.v IS its checks (name check / history look-up,
+   ownership look-up) followed by [install_tail] / [upgrade_tail], the programs the richer model
+   lifts behind its own transcription of the checks *)
 Theorem C06_rich_tails_are_shared_model :
-  forall (rn ns : string) (fl : flags) (cid vid : nat) (mani : list res) (hks : list hook),
-    f_dry_run fl = false -> f_client_only fl = true ->
+  (forall (rn ns : string) (fl : flags) (cid vid : nat) (mani : list res) (hks : list hook),
+    f_dry_run fl = false ->
     install rn ns fl cid vid mani hks =
     bind (bind (perform SHistory) (fun h =>
                 match max_rev_of h with
                 | None => Ret true
                 | Some last => Ret (f_replace fl && (status_eqb (st last) SUninstalled || status_eqb (st last) SFailed))
                 end))
-         (fun avail => if negb avail then Ret (OErr ENameInUse)
-                       else install_tail fl (mkRelease 1 SPendingInstall cid vid mani hks) (stamp_all rn ns mani) []).
-Proof. intros rn ns fl cid vid mani hks H1 H2. rewrite install_split, H1, H2. reflexivity. Qed.
+         (fun avail =>
+            if negb avail then Ret (OErr ENameInUse) else
+            bind (if negb (f_client_only fl) && negb (match stamp_all rn ns mani with [] => true | _ => false end)
+                  then perform (KExisting (stamp_all rn ns mani) (f_take_ownership fl)) else Ret (Some []))
+                 (fun adopt =>
+                    match adopt with
+                    | None => Ret (OErr EConflict)
+                    | Some adopted =>
+                        install_tail fl (mkRelease 1 SPendingInstall cid vid mani hks) (stamp_all rn ns mani) adopted
+                    end))) /\
+  (forall (rn ns : string) (fl : flags) (cid vid : nat) (mani : list res) (hks : list hook),
+    f_dry_run fl = false ->
+    upgrade rn ns fl cid vid mani hks =
+    bind (perform SHistory) (fun h =>
+      match max_rev_of h with
+      | None => Ret (OErr ENoDeployed)
+      | Some last =>
+          if is_pending (st last) then Ret (OErr EPending) else
+          bind (if status_eqb (st last) SDeployed then Ret (Some last)
+                else bind (perform SDeployedAll) (fun ds =>
+                     match max_rev_of ds with
+                     | Some d => Ret (Some d)
+                     | None => if status_eqb (st last) SFailed || status_eqb (st last) SSuperseded
+                               then Ret (Some last) else Ret None
+                     end))
+               (fun cur =>
+                  match cur with
+                  | None => Ret (OErr ENoDeployed)
+                  | Some current =>
+                      bind (perform (KExisting (filter (fun r => negb (in_keys (rkey r) (manifest current))) (stamp_all rn ns mani))
+                                               (f_take_ownership fl)))
+                           (fun adopt =>
+                              match adopt with
+                              | None => Ret (OErr EConflict)
+                              | Some adopted =>
+                                  upgrade_tail rn ns fl (mkRelease (S (rev last)) SPendingUpgrade cid vid mani hks) current
+                                               (manifest current ++ adopted)%list (stamp_all rn ns mani)
+                              end)
+                  end)
+      end)).
+Proof. split; [exact install_is_checks_then_tail | exact upgrade_is_checks_then_tail]. Qed.
 Print Assumptions C06_rich_tails_are_shared_model.
 
 (* non-vacuity: a chart with crds/, a lookup and CreateNamespace, every answer "yes", empty
